@@ -616,8 +616,743 @@ def panel_lifecycle(ctx, hook=None, n=None):
     return dist
 
 
+# ------------------------------------------------------------------------------------------ PanelAssembly
+ASM_OPS = ['size', 'k0:0', 'k0:1', 'kG0', 'kG', 'kM', 'kT', 'fint', 'fext', 'conn:0', 'conn:1', 'uvw', 'strain', 'stress']
+
+
+def gen_asm_def(rng):
+    geo = rng.choice(['flat', 'flat', 'cyl'])
+    Ds = []
+    for k in range(2):
+        D = gen_panel_def(rng, plain=True)
+        D.update(model='none', rGiven=geo == 'cyl', alphaGiven=False, y12='none', flow='x',
+                 mu=rng.random() < 0.9, offsetZero=rng.random() < 0.4)
+        Ds.append(D)
+    Ds[1]['N']['a'] = Ds[0]['N']['a']
+    Ds[1]['N']['r'] = Ds[0]['N']['r']
+    return dict(d1=Ds[0], d2=Ds[1], connGiven=rng.random() < 0.85)
+
+
+def build_asm(AD):
+    from compmech.panel.assembly import PanelAssembly
+    ps = [build_panel(AD['d1']), build_panel(AD['d2'])]
+    for i, p in enumerate(ps):
+        p.group = 'g'
+        p.x0 = 0.
+        p.y0 = 0. if i == 0 else ps[0].b
+    conn = [dict(p1=ps[0], p2=ps[1], func='SSycte', ycte1=ps[0].b, ycte2=0.)] if AD['connGiven'] else None
+    asm = PanelAssembly(ps, conn=conn)
+    other = [dict(p1=ps[0], p2=ps[1], func='SSycte', ycte1=ps[0].b * 0.5, ycte2=ps[1].b * 0.25)]
+    return asm, ps, other
+
+
+def asm_size(AD):
+    return sum(3 * D['N']['m'] * D['N']['n'] for D in (AD['d1'], AD['d2']))
+
+
+def asm_call(op, c, other):
+    name, _, flag = op.partition(':')
+    f = flag == '1'
+    if name == 'size':
+        return lambda a: a.get_size()
+    if name == 'k0':
+        return lambda a: a.calc_k0(silent=True, **(dict(conn=other) if f else {}))
+    if name == 'kG0':
+        return lambda a: a.calc_kG0(silent=True)
+    if name == 'kG':
+        return lambda a: a.calc_kG0(c=c, silent=True)
+    if name == 'kM':
+        return lambda a: a.calc_kM(silent=True)
+    if name == 'kT':
+        return lambda a: a.calc_kT(c=c, silent=True)
+    if name == 'fint':
+        return lambda a: a.calc_fint(c, silent=True)
+    if name == 'fext':
+        return lambda a: a.calc_fext(silent=True)
+    if name == 'conn':
+        return lambda a: a.get_k0_conn(**(dict(conn=other) if f else {}))
+    if name == 'uvw':
+        return lambda a: a.uvw(c, 'g', gridx=3, gridy=4)
+    if name == 'strain':
+        return lambda a: a.strain(c, 'g', gridx=3, gridy=4)
+    if name == 'stress':
+        return lambda a: a.stress(c, 'g', gridx=3, gridy=4)
+    raise ValueError(op)
+
+
+def run_asm_sequence(AD, ops, c):
+    asm, ps, other = build_asm(AD)
+    recs = []
+    for op in ops:
+        cd = digest(c)
+        dd = [def_digest(p, D) for p, D in zip(ps, (AD['d1'], AD['d2']))]
+        for p in ps:
+            object.__setattr__(p, '_log', [])
+        try:
+            with quiet():
+                val = asm_call(op, c, other)(asm)
+            oc = 'ok'
+        except Exception as e:                           # noqa
+            val, oc = e, type(e).__name__
+        logs = [object.__getattribute__(p, '_log') for p in ps]
+        for p in ps:
+            object.__setattr__(p, '_log', None)
+        recs.append(dict(op=op, oc=oc, val=val, err=str(val)[:160] if oc != 'ok' else '',
+                         W=[dedup([k for t, k in l if t == 'w' and k in WRITE_ATTRS]) for l in logs],
+                         R=[set(k for t, k in l if t == 'r' and k in INPUT_HIDDEN) for l in logs],
+                         mutated=digest(c) != cd,
+                         def_changed=[def_digest(p, D) != d0 for p, D, d0 in zip(ps, (AD['d1'], AD['d2']), dd)]))
+    return recs
+
+
+def parse_asm_reply(rep):
+    out = []
+    for f in rep.split(' ; '):
+        parts = [x.strip() for x in f.split('#')]
+        oc, tok = parts[0], parts[1]
+        g = lambda s: [x for x in s.split('=', 1)[1].split(',') if x]
+        out.append(dict(oc=oc, tok=tok, R=[g(parts[2]), g(parts[4])], W=[g(parts[3]), g(parts[5])]))
+    return out
+
+
+def asm_lines(AD, ops):
+    dl = '%s / %s / %d' % (panel_def_line(AD['d1']), panel_def_line(AD['d2']), AD['connGiven'])
+    lines = ['C20 asm %s | %s' % (dl, ' '.join(ops))]
+    for op in dedup(ops):
+        lines.append('C20 asm %s | %s' % (dl, op))
+        lines.append('C20 asm %s | k0:0 %s' % (dl, op))
+    return lines
+
+
+def classify_tokens(t1, t2):
+    """identity of the known order dependence the model predicts for two different result tokens"""
+    if ('own{' in t1 and 'other{' in t2) or ('other{' in t1 and 'own{' in t2):
+        return 'C20-asm-k0_conn-cache-ignores-conn'
+    return 'C20-kt_kr-builds-lam-without-offset'
+
+
+def asm_case(ctx, AD, ops, replies, dist):
+    rs = np.random.RandomState(AD['d1']['N']['seed'])
+    c = rs.uniform(-1, 1, asm_size(AD)) * 1e-3
+    replay = dict(kind='asm', definition=AD, ops=ops)
+    recs = run_asm_sequence(AD, ops, c)
+    model = parse_asm_reply(replies[0])
+    distinct = dedup(ops)
+    mref = {op: (parse_asm_reply(replies[1 + 2 * k])[0], parse_asm_reply(replies[2 + 2 * k])[1])
+            for k, op in enumerate(distinct)}
+    ctx.evaluations += len(ops)
+    for i, (r, m) in enumerate(zip(recs, model)):
+        dist['outcomes'][r['oc']] = dist['outcomes'].get(r['oc'], 0) + 1
+        what = None
+        if r['oc'] != m['oc']:
+            what = 'outcome: model %s, implementation %s (%s)' % (m['oc'], r['oc'], r['err'])
+        elif r['W'] != m['W']:
+            what = 'attributes written per panel: model %s, implementation %s' % (m['W'], r['W'])
+        elif r['R'] != [set(x) for x in m['R']]:
+            what = 'hidden attributes read per panel: model %s, implementation %s' % (
+                [sorted(x) for x in m['R']], [sorted(x) for x in r['R']])
+        if what and ctx.violation('PanelAssembly call %d (%s): %s' % (i, r['op'], what), replay):
+            return True
+        if r['mutated'] and ctx.violation('PanelAssembly call %d (%s) modified the caller-supplied c' % (i, r['op']),
+                                          replay):
+            return True
+        if any(r['def_changed']) and ctx.violation('PanelAssembly call %d (%s) changed a user-supplied panel '
+                                                   'definition attribute' % (i, r['op']), replay):
+            return True
+    refs = {}
+    for op in distinct:
+        ra = run_asm_sequence(AD, [op], c)[0]
+        rb = run_asm_sequence(AD, ['k0:0', op], c)
+        refs[op] = (ra, rb[0], rb[1])
+        if ra['oc'] != 'ok' and rb[0]['oc'] == 'ok' and rb[1]['oc'] == 'ok':
+            if ctx.violation('PanelAssembly: %s cannot be requested first (%s: %s) although it succeeds after calc_k0()'
+                             % (op, ra['oc'], ra['err'][:60]), dict(replay, ops=[op]),
+                             identity='C20-fresh-panel-no-rebuild'):
+                return True
+            dist['fresh_fail_known'][op] = dist['fresh_fail_known'].get(op, 0) + 1
+    seen = {}
+    for i, (r, m) in enumerate(zip(recs, model)):
+        if r['oc'] != 'ok':
+            continue
+        op = r['op']
+        ra, rw, rb = refs[op]
+        cmp = []
+        if ra['oc'] == 'ok':
+            cmp.append(('first call on a fresh assembly', ra['val'], mref[op][0]['tok']))
+        if rw['oc'] == 'ok' and rb['oc'] == 'ok':
+            cmp.append(('a fresh assembly after calc_k0()', rb['val'], mref[op][1]['tok']))
+        if op in seen:
+            cmp.append(('its own earlier evaluation (call %d)' % seen[op][0], seen[op][1], seen[op][2]))
+        else:
+            seen[op] = (i, r['val'], m['tok'])
+        for label, ref, reftok in cmp:
+            ctx.evaluations += 1
+            if not same_result(r['val'], ref):
+                ident = classify_tokens(m['tok'], reftok) if m['tok'] != reftok else None
+                note = ' [the model predicts it: %s vs %s]' % (m['tok'][-150:], reftok[-150:]) if ident else ''
+                if ctx.violation('PanelAssembly call %d (%s) returns a result different from %s%s'
+                                 % (i, op, label, note), replay, identity=ident):
+                    return True
+                dist['order_dependent_known'] += 1
+    if len(distinct) < len(ops) or any(r['oc'] != 'ok' for r in recs):
+        ctx.nontrivial.add('asm' + json.dumps([panel_def_line(AD['d1']), panel_def_line(AD['d2']), ops]))
+    return False
+
+
+ASM_CORPUS = [['conn:0', 'k0:0', 'kT', 'k0:0'], ['k0:0', 'k0:1', 'conn:1'], ['kM', 'kG', 'uvw', 'strain', 'stress', 'fint',
+                                                                              'k0:0', 'kM', 'kG', 'uvw', 'stress', 'fint']]
+
+
+def asm_lifecycle(ctx):
+    rng = ctx.rng
+    cases = []
+    for ops in ASM_CORPUS:
+        AD = gen_asm_def(rng)
+        AD['connGiven'] = True
+        AD['d1']['offsetZero'] = AD['d2']['offsetZero'] = False
+        AD['d1']['mu'] = AD['d2']['mu'] = True
+        cases.append((AD, ops))
+    for _ in range(ctx.scale(25, 250)):
+        n = rng.choice([1, 2, 3, 5, 8])
+        cases.append((gen_asm_def(rng), [rng.choice(ASM_OPS) for _ in range(n)]))
+    lines, idx = [], []
+    for AD, ops in cases:
+        l = asm_lines(AD, ops)
+        idx.append((len(lines), len(l)))
+        lines += l
+    replies = driver(lines, pid='C20')
+    if any(r.startswith('err') for r in replies):
+        raise RuntimeError('driver: %r' % [r for r in replies if r.startswith('err')][:3])
+    dist = dict(outcomes={}, fresh_fail_known={}, order_dependent_known=0, cases=len(cases))
+    for (AD, ops), (i0, k) in zip(cases, idx):
+        if asm_case(ctx, AD, ops, replies[i0:i0 + k], dist):
+            break
+    ctx.cov['assembly_distribution'] = dist
+
+
+# ------------------------------------------------------------------------------------------ StiffPanelBay
+BAY_OPS = ['size', 'k0', 'kG0', 'kM', 'kA', 'cA', 'fext', 'uvw']
+
+
+def build_bay(BD):
+    from compmech.stiffpanelbay import StiffPanelBay
+    bay = StiffPanelBay()
+    bay.a, bay.b, bay.m, bay.n = BD['a'], BD['b'], BD['m'], BD['n']
+    bay.stack, bay.plyt, bay.laminaprop, bay.mu = list(BD['angles']), 1e-3, LP, 1500.
+    if BD['modelGiven']:
+        bay.model = MODEL_NAMES['plate']
+    bay.beta = 5.
+    bay.add_panel(y1=0, y2=BD['b'] / 2, Nxx=-1.)
+    bay.add_panel(y1=BD['b'] / 2, y2=BD['b'], Nxx=-1.)
+    if BD['stiff'] == '2d':
+        bay.add_bladestiff2d(ys=BD['b'] / 2, bf=0.05, fstack=[0, 90], fplyt=1e-3, flaminaprop=LP, mf=3, nf=3)
+    elif BD['stiff'] == '1d':
+        bay.add_bladestiff1d(ys=BD['b'] / 2, bf=0.05, fstack=[0, 90], fplyt=1e-3, flaminaprop=LP)
+    bay.forces_skin.append([BD['a'] / 2, BD['b'] / 4, 0, 0, 1.])
+    return bay
+
+
+def bay_call(op, BD):
+    def size(b):
+        s = 3 * BD['m'] * BD['n']
+        return s + (27 if BD['stiff'] == '2d' else 0)
+    return dict(size=lambda b: b.get_size(), k0=lambda b: b.calc_k0(silent=True), kG0=lambda b: b.calc_kG0(silent=True),
+                kM=lambda b: b.calc_kM(silent=True), kA=lambda b: b.calc_kA(silent=True),
+                cA=lambda b: b.calc_cA(silent=True), fext=lambda b: b.calc_fext(silent=True),
+                uvw=lambda b: tuple(np.array(x) for x in b.uvw_skin(np.linspace(-1, 1, size(b)) * 1e-3, gridx=3,
+                                                                      gridy=4)))[op]
+
+
+def run_bay_sequence(BD, ops):
+    bay = build_bay(BD)
+    out = []
+    for op in ops:
+        try:
+            with quiet():
+                val = bay_call(op, BD)(bay)
+            out.append(('ok', val))
+        except Exception as e:                            # noqa
+            out.append((type(e).__name__, e))
+    return out
+
+
+def bay_lifecycle(ctx):
+    rng = ctx.rng
+    cases = [(dict(modelGiven=False, stiff=None, a=1.2, b=0.8, m=3, n=4, angles=[0, 45]),
+              ['kA', 'fext', 'uvw', 'size', 'cA', 'k0', 'kA', 'fext', 'uvw', 'size', 'cA']),
+             (dict(modelGiven=False, stiff='2d', a=1.2, b=0.8, m=3, n=4, angles=[0, 45]), ['cA', 'kA', 'k0', 'kM']),
+             (dict(modelGiven=False, stiff='1d', a=1.2, b=0.8, m=3, n=4, angles=[0, 45]), ['k0', 'cA', 'kA', 'k0', 'uvw'])]
+    for _ in range(ctx.scale(12, 120)):
+        BD = dict(modelGiven=rng.random() < 0.3, stiff=rng.choice([None, None, '2d', '1d']), a=rng.uniform(0.8, 1.6),
+                  b=rng.uniform(0.5, 1.0), m=rng.choice([3, 4]), n=rng.choice([3, 4]),
+                  angles=[rng.choice([0, 45, 90]) for _ in range(rng.choice([1, 2, 3]))])
+        cases.append((BD, [rng.choice(BAY_OPS) for _ in range(rng.choice([1, 2, 4, 7]))]))
+    lines = []
+    for BD, ops in cases:
+        lines.append('C20 bay %d %d | %s' % (BD['modelGiven'], BD['stiff'] is not None, ' '.join(ops)))
+    replies = driver(lines, pid='C20')
+    dist = dict(outcomes={}, fresh_fail_known={}, cases=len(cases))
+    for (BD, ops), rep in zip(cases, replies):
+        if rep.startswith('err'):
+            raise RuntimeError('driver: ' + rep)
+        model = [x.strip() for x in rep.split(' ; ')]
+        replay = dict(kind='bay', definition=BD, ops=ops)
+        recs = run_bay_sequence(BD, ops)
+        ctx.evaluations += len(ops)
+        seen = {}
+        for i, ((oc, val), moc, op) in enumerate(zip(recs, model, ops)):
+            dist['outcomes'][oc] = dist['outcomes'].get(oc, 0) + 1
+            if oc != moc:
+                if ctx.violation('StiffPanelBay call %d (%s): outcome model %s, implementation %s (%s)'
+                                 % (i, op, moc, oc, str(val)[:100]), replay):
+                    return
+            if oc == 'AssertionError' and BD['stiff'] and run_bay_sequence(BD, [op])[0][0] == 'ok':
+                if ctx.violation('StiffPanelBay call %d (%s) raises AssertionError (stiffener._rebuild: panel1.r == panel2.r) '
+                                 'although it succeeds as first call: calc_kA normalised r of panels[0] only'
+                                 % (i, op), replay, identity='C20-bay-kA-normalises-r-of-first-panel-only'):
+                    return
+                dist['assert_known'] = dist.get('assert_known', 0) + 1
+            if oc != 'ok':
+                continue
+            ra = run_bay_sequence(BD, [op])[0]
+            rb = run_bay_sequence(BD, ['k0', op])
+            cmp = []
+            if ra[0] == 'ok':
+                cmp.append(('first call on a fresh bay', ra[1]))
+            if rb[0][0] == 'ok' and rb[1][0] == 'ok':
+                cmp.append(('a fresh bay after calc_k0()', rb[1][1]))
+            if ra[0] != 'ok' and rb[1][0] == 'ok' and op not in dist['fresh_fail_known']:
+                if ctx.violation('StiffPanelBay: %s cannot be requested first (%s: %s) although it succeeds after '
+                                 'calc_k0()' % (op, ra[0], str(ra[1])[:60]), dict(replay, ops=[op]),
+                                 identity='C20-bay-fresh-needs-calc_k0'):
+                    return
+                dist['fresh_fail_known'][op] = 1
+            if op in seen:
+                cmp.append(('its own earlier evaluation', seen[op]))
+            seen.setdefault(op, val)
+            for label, ref in cmp:
+                ctx.evaluations += 1
+                if not same_result(val, ref):
+                    if ctx.violation('StiffPanelBay call %d (%s) returns a result different from %s' % (i, op, label),
+                                     replay):
+                        return
+    ctx.cov['bay_distribution'] = dist
+
+
+# ------------------------------------------------------------------------------------------ ConeCyl (forked workers)
+CONE_OPS = ['size', 'k0', 'lb', 'static', 'fext', 'fint', 'kT', 'uvw', 'strain', 'stress']
+
+
+def build_cone(CD):
+    from compmech.conecyl import ConeCyl
+    cc = ConeCyl()
+    cc.model = CD.get('model', 'clpt_donnell_bc1')
+    cc.m1, cc.m2, cc.n2 = 6, 3, 4
+    cc.laminaprop = (123.55e3, 8.708e3, 0.319, 5.695e3, 5.695e3, 5.695e3)
+    cc.stack = list(CD['angles'])
+    cc.plyt = 0.125
+    cc.r2 = CD['r2']
+    cc.H = CD['H']
+    cc.alphadeg = CD['alphadeg']
+    cc.nx, cc.nt = 16, 24
+    cc.num_eigvalues = 2
+    cc.ni_num_cores = CD.get('ni', 2)
+    cc.out_num_cores = CD.get('outc', 2)
+    if CD['fcGiven']:
+        cc.Fc = 1000.
+    if CD['rebuilt']:
+        cc.add_SPL(10.)
+    else:
+        cc.forces.append([CD['H'] / 2., 0., 0., 0., 10.])
+    return cc
+
+
+def cone_call(op):
+    def c_of(cc):
+        return np.linspace(-1, 1, cc.get_size()) * 1e-3
+    return dict(size=lambda cc: cc.get_size(), k0=lambda cc: cc.calc_k0(silent=True),
+                lb=lambda cc: (cc.lb(), np.array(cc.eigvals))[1],
+                static=lambda cc: [np.array(x) for x in cc.static(silent=True)],
+                fext=lambda cc: np.array(cc.calc_fext(silent=True)),
+                fint=lambda cc: np.array(cc.calc_fint(c_of(cc), silent=True)),
+                kT=lambda cc: cc.calc_kT(c_of(cc), silent=True),
+                uvw=lambda cc: tuple(np.array(x) for x in cc.uvw(c_of(cc), gridx=3, gridt=5)),
+                strain=lambda cc: np.array(cc.strain(c_of(cc), gridx=3, gridt=5)),
+                stress=lambda cc: np.array(cc.stress(c_of(cc), gridx=3, gridt=5)))[op]
+
+
+def forked(fn):
+    """run fn(emit) in a forked child; returns (list of emitted objects, exit signal or 0)"""
+    import pickle
+    r, w = os.pipe()
+    pid = os.fork()
+    if pid == 0:
+        try:
+            os.close(r)
+            f = os.fdopen(w, 'wb')
+
+            def emit(obj):
+                pickle.dump(obj, f)
+                f.flush()
+            devnull = os.open(os.devnull, os.O_WRONLY)
+            os.dup2(devnull, 1)
+            os.dup2(devnull, 2)
+            fn(emit)
+            f.close()
+        finally:
+            os._exit(0)
+    os.close(w)
+    f = os.fdopen(r, 'rb')
+    out = []
+    while True:
+        try:
+            out.append(pickle.load(f))
+        except EOFError:
+            break
+        except Exception:                                 # noqa  (truncated pickle of a dying child)
+            break
+    f.close()
+    _, status = os.waitpid(pid, 0)
+    return out, (os.WTERMSIG(status) if os.WIFSIGNALED(status) else 0)
+
+
+def cone_sequence(CD, ops):
+    """[(outcome, value)] ; a call that kills the interpreter is reported as ('SEGV', None) and ends the sequence"""
+    def body(emit):
+        cc = build_cone(CD)
+        for op in ops:
+            emit(('start', op))
+            try:
+                with np.errstate(all='ignore'):
+                    val = cone_call(op)(cc)
+                if hasattr(val, 'toarray'):
+                    val = val.toarray()
+                emit(('ok', val))
+            except Exception as e:                        # noqa
+                emit((type(e).__name__, str(e)[:100]))
+    out, sig = forked(body)
+    res = []
+    pending = False
+    for item in out:
+        if item[0] == 'start':
+            pending = True
+        else:
+            res.append(item)
+            pending = False
+    if sig and pending:
+        res.append(('SEGV', 'signal %d' % sig))
+    return res
+
+
+def cone_worker(jobfile, outfile):
+    """runs in its own interpreter (no OpenMP region was ever entered before forking)"""
+    import pickle
+    jobs = json.load(open(jobfile))
+    results = []
+    for job in jobs:
+        if job['kind'] == 'seq':
+            results.append(cone_sequence(job['def'], job['ops']))
+        elif job['kind'] == 'threads':
+            def body(emit, job=job):
+                cc = build_cone(job['def'])
+                cc.calc_k0(silent=True)
+                c = np.linspace(-1, 1, cc.get_size()) * 1e-3
+                for nc in range(1, 17):
+                    cc.ni_num_cores = nc
+                    cc.out_num_cores = nc
+                    emit((nc, np.array(cc.calc_fint(c, silent=True)), cc.calc_kT(c, silent=True).toarray(),
+                          tuple(np.array(x) for x in cc.uvw(c, gridx=3, gridt=7))))
+            results.append(forked(body))
+    pickle.dump(results, open(outfile, 'wb'))
+
+
+def cone_lifecycle(ctx):
+    import pickle
+    rng = ctx.rng
+    cases = [(dict(fcGiven=False, rebuilt=False), ['lb', 'static', 'lb', 'static']),
+             (dict(fcGiven=False, rebuilt=False), ['static', 'lb']),
+             (dict(fcGiven=False, rebuilt=False), ['uvw', 'strain', 'k0', 'uvw', 'fint', 'stress']),
+             (dict(fcGiven=False, rebuilt=True), ['fint']), (dict(fcGiven=True, rebuilt=True), ['stress']),
+             (dict(fcGiven=True, rebuilt=False), ['static', 'lb', 'static', 'lb', 'fext'])]
+    for _ in range(ctx.scale(10, 100)):
+        cases.append((dict(fcGiven=rng.random() < 0.5, rebuilt=rng.random() < 0.5),
+                      [rng.choice(CONE_OPS) for _ in range(rng.choice([1, 2, 3, 5, 7]))]))
+    for CD, _ in cases:
+        CD.update(angles=[rng.choice([0, 45, -45, 90]) for _ in range(rng.choice([2, 3]))], r2=rng.uniform(150, 400),
+                  H=rng.uniform(300, 600), alphadeg=rng.choice([0., 0., 10., 25.]))
+    lines = ['C20 cone %d %d | %s' % (CD['fcGiven'], CD['rebuilt'], ' '.join(ops)) for CD, ops in cases]
+    # model first: a sequence ends at the first call the model predicts to kill the interpreter
+    replies = driver(lines, pid='C20')
+    jobs = []
+    plan = []
+    for (CD, ops), rep in zip(cases, replies):
+        if rep.startswith('err'):
+            raise RuntimeError('driver: ' + rep)
+        model = [tuple(y.strip() for y in x.split('#')) for x in rep.split(' ; ')]
+        cut = next((i + 1 for i, m in enumerate(model) if m[0] == 'SEGV'), len(ops))
+        ops, model = ops[:cut], model[:cut]
+        distinct = dedup(ops)
+        j0 = len(jobs)
+        jobs.append(dict(kind='seq', **{'def': CD}, ops=ops))
+        for op in distinct:
+            jobs.append(dict(kind='seq', **{'def': CD}, ops=[op]))
+            jobs.append(dict(kind='seq', **{'def': CD}, ops=['k0', op]))
+        plan.append((CD, ops, model, distinct, j0))
+    tj = len(jobs)
+    for alphadeg in (0., 20.):
+        jobs.append(dict(kind='threads', **{'def': dict(fcGiven=True, rebuilt=True, angles=[0, 45, -45], r2=250., H=500.,
+                                                         alphadeg=alphadeg)}))
+    jobfile = os.path.join(SCRATCH, 'C20_cone_jobs.json')
+    outfile = os.path.join(SCRATCH, 'C20_cone_out.pkl')
+    json.dump(jobs, open(jobfile, 'w'))
+    if os.path.exists(outfile):
+        os.remove(outfile)
+    p = subprocess.run([sys.executable, '-m', 'tools.props.C20', 'cone-worker', jobfile, outfile], cwd=VERIF,
+                       stdout=subprocess.PIPE, stderr=subprocess.STDOUT, text=True, timeout=3000)
+    if not os.path.exists(outfile):
+        raise RuntimeError('cone worker failed: ' + p.stdout[-2000:])
+    results = pickle.load(open(outfile, 'rb'))
+    dist = dict(outcomes={}, known={}, cases=len(cases), forked_runs=tj)
+    # model tokens of the reference runs
+    ref_lines = []
+    for CD, ops, model, distinct, j0 in plan:
+        for op in distinct:
+            ref_lines.append('C20 cone %d %d | %s' % (CD['fcGiven'], CD['rebuilt'], op))
+            ref_lines.append('C20 cone %d %d | k0 %s' % (CD['fcGiven'], CD['rebuilt'], op))
+    ref_rep = driver(ref_lines, pid='C20') if ref_lines else []
+    rk = 0
+    for CD, ops, model, distinct, j0 in plan:
+        replay = dict(kind='cone', definition=CD, ops=ops)
+        recs = results[j0]
+        ctx.evaluations += len(ops)
+        refs = {}
+        for k, op in enumerate(distinct):
+            mA = [tuple(y.strip() for y in x.split('#')) for x in ref_rep[rk].split(' ; ')]
+            mB = [tuple(y.strip() for y in x.split('#')) for x in ref_rep[rk + 1].split(' ; ')]
+            rk += 2
+            refs[op] = (results[j0 + 1 + 2 * k], results[j0 + 2 + 2 * k], mA[0], mB[-1])
+        if len(recs) != len(ops):
+            if ctx.violation('ConeCyl sequence ended after %d of %d calls (%s)' % (len(recs), len(ops), recs[-1:]), replay):
+                return
+            continue
+        seen = {}
+        for i, ((oc, val), m, op) in enumerate(zip(recs, model, ops)):
+            dist['outcomes'][oc] = dist['outcomes'].get(oc, 0) + 1
+            if oc != m[0]:
+                if ctx.violation('ConeCyl call %d (%s): outcome model %s, implementation %s (%s)'
+                                 % (i, op, m[0], oc, str(val)[:100]), replay):
+                    return
+                continue
+            ra, rb, mA, mB = refs[op]
+            if oc == 'SEGV' or (ra and ra[0][0] != 'ok' and len(rb) == 2 and rb[1][0] == 'ok'):
+                ident = 'C20-conecyl-fresh-%s' % ('segfault' if (oc == 'SEGV' or ra[0][0] == 'SEGV') else 'raises')
+                if ra and ra[0][0] != 'ok' and len(rb) == 2 and rb[1][0] == 'ok' and (op, ident) not in dist['known']:
+                    if ctx.violation('ConeCyl: %s cannot be requested first (%s) although it succeeds after calc_k0()'
+                                     % (op, ra[0][0]), dict(replay, ops=[op]), identity=ident):
+                        return
+                    dist['known'][(op, ident)] = 1
+            if oc != 'ok':
+                continue
+            tol = 1e-6 if op == 'lb' else 0.0
+            cmp = []
+            if ra and ra[0][0] == 'ok':
+                cmp.append(('first call on a fresh shell', ra[0][1], mA[1]))
+            if len(rb) == 2 and rb[1][0] == 'ok':
+                cmp.append(('a fresh shell after calc_k0()', rb[1][1], mB[1]))
+            if op in seen:
+                cmp.append(('its own earlier evaluation (call %d)' % seen[op][0], seen[op][1], seen[op][2]))
+            else:
+                seen[op] = (i, val, m[1])
+            for label, ref, reftok in cmp:
+                if op == 'lb' and (m[1] == 'zero' or reftok == 'zero') and m[1] == reftok:
+                    continue          # zero axial load: kG0 = 0, the eigenvalues are round-off noise in every history
+                ctx.evaluations += 1
+                if not same_result(val, ref, tol):
+                    ident = 'C20-conecyl-lb-default-load-order' if m[1] != reftok else None
+                    note = ' [the model predicts it: axial load %s vs %s]' % (m[1], reftok) if ident else ''
+                    if ctx.violation('ConeCyl call %d (%s) returns a result different from %s%s' % (i, op, label, note),
+                                     replay, identity=ident):
+                        return
+                    dist['known'][('order', op)] = dist['known'].get(('order', op), 0) + 1
+        if len(distinct) < len(ops):
+            ctx.nontrivial.add('cone' + json.dumps([CD['fcGiven'], CD['rebuilt'], ops]))
+    # thread clause: integratev inside calc_fint / calc_kT, prange in uvw
+    tdist = {}
+    for k, alphadeg in enumerate((0., 20.)):
+        out, sig = results[tj + k]
+        if sig or len(out) != 16:
+            ctx.violation('ConeCyl thread sweep died (signal %s) after %d of 16 core counts' % (sig, len(out)),
+                          dict(kind='cone-threads', alphadeg=alphadeg))
+            return
+        base = out[0]
+        worst = 0.
+        for nc, fint, kT, uvw in out[1:]:
+            ctx.evaluations += 3
+            for name, a, b in (('calc_fint', fint, base[1]), ('calc_kT', kT, base[2])):
+                s = max(np.abs(b).max(), 1e-300)
+                d = np.abs(a - b).max() / s
+                worst = max(worst, d)
+                if d > 1e-12:
+                    ctx.violation('ConeCyl.%s with ni_num_cores=%d differs from ni_num_cores=1 by %.2e relative'
+                                  % (name, nc, d), dict(kind='cone-threads', alphadeg=alphadeg, num_cores=nc))
+                    return
+            if not same_result(uvw, base[3]):
+                ctx.violation('ConeCyl.uvw with out_num_cores=%d differs from out_num_cores=1' % nc,
+                              dict(kind='cone-threads', alphadeg=alphadeg, num_cores=nc))
+                return
+        tdist['alphadeg=%g' % alphadeg] = dict(max_rel_dev_integratev=worst, cores='1..16')
+    dist['known'] = {str(k): v for k, v in dist['known'].items()}
+    ctx.cov['conecyl_distribution'] = dist
+    ctx.cov['conecyl_threads'] = tdist
+
+
+# ------------------------------------------------------------------------------------------ threads, solvers, plots
+def thread_clauses(ctx, hook=None):
+    """uvw / strain / stress for out_num_cores = 1..16, point counts not divisible by the core count"""
+    rng = ctx.rng
+    n = 0
+    for trial in range(ctx.scale(6, 40)):
+        D = gen_panel_def(rng, plain=True)
+        D.update(model='none', alphaGiven=False, y12='none')
+        p = build_panel(D)
+        if hook:
+            hook(p)
+        A = Args(D)
+        with quiet():
+            p.calc_k0(silent=True)
+        npts = rng.choice([1, 3, 7, 13, 17, 23, 31, 37])
+        rs = np.random.RandomState(trial)
+        xs = rs.uniform(0, D['N']['a'], npts)
+        ys = rs.uniform(0, D['N']['b'], npts)
+        base = None
+        for nc in range(1, 17):
+            p.out_num_cores = nc
+            with quiet():
+                res = (tuple(np.array(x) for x in p.uvw(A.c, xs=xs, ys=ys)), p.strain(A.c, xs=xs, ys=ys),
+                       p.stress(A.c, xs=xs, ys=ys))
+            n += 3
+            if base is None:
+                base = res
+            elif not same_result(res, base):
+                which = [nm for nm, a, b in zip(('uvw', 'strain', 'stress'), res, base) if not same_result(a, b)]
+                ctx.violation('%s with out_num_cores=%d differs from out_num_cores=1 (%d points)' % (which, nc, npts),
+                              dict(kind='threads', definition=D, npts=npts, num_cores=nc))
+                return
+    ctx.evaluations += n
+    ctx.cov['panel_threads'] = dict(evaluations=n, cores='1..16', note='bit-identical arrays required')
+    try:
+        import compmech.integrate.integratev as iv
+        ctx.cov['integratev'] = ('module importable; `integratev` itself is a cdef function (only `_test_integratev`, fixed '
+                                 'num_cores=1, is exported; its test file imports the absent pyximport and fails at '
+                                 'collection) - the thread clause is exercised through ConeCyl.calc_fint/calc_kT')
+        iv._test_integratev(10, 10, 'trapz2d')
+    except Exception as e:                                # noqa
+        ctx.cov['integratev'] = 'not importable: %r' % (e,)
+
+
+def analysis_inputs(ctx, hook=None):
+    """compmech.analysis.lb / freq / static: matrices and vectors handed in are not modified; repeatable"""
+    from compmech.analysis import lb, freq, static
+    rng = ctx.rng
+    for trial in range(ctx.scale(4, 30)):
+        D = gen_panel_def(rng, plain=True)
+        D.update(model='none', alphaGiven=False, y12='none', mu=True, forces=True)
+        D['N'].update(m=4, n=4, bc='ss')
+        p = build_panel(D)
+        if hook:
+            hook(p)
+        with quiet():
+            K = p.calc_k0(silent=True)
+            KG = p.calc_kG0(silent=True)
+            M = p.calc_kM(silent=True)
+            f = p.calc_fext(silent=True)
+        for name, fn, args in (('lb', lambda: lb(K, KG, silent=True, num_eigvalues=2, sparse_solver=False), (K, KG)),
+                               ('lb-sparse', lambda: lb(K, KG, silent=True, num_eigvalues=2), (K, KG)),
+                               ('freq', lambda: freq(K, M, silent=True, num_eigvalues=2, sparse_solver=False), (K, M)),
+                               ('static', lambda: static(K, f, silent=True), (K, f))):
+            before = [digest(a) for a in args]
+            outs = []
+            for rep in range(2):
+                try:
+                    with quiet():
+                        outs.append(fn())
+                except Exception as e:                    # noqa
+                    outs.append(('raised', type(e).__name__))
+            ctx.evaluations += 2
+            if [digest(a) for a in args] != before:
+                ctx.violation('compmech.analysis.%s modified a matrix / vector passed by the caller' % name,
+                              dict(kind='analysis', definition=D, function=name))
+                return
+            tol = 1e-8 if name == 'lb-sparse' else 0.0
+            a, b = outs
+            if isinstance(a, tuple) and a and isinstance(a[0], str):
+                ok = a == b
+            elif name == 'lb-sparse':
+                ok = same_result(a[0], b[0], tol)
+            else:
+                ok = same_result(list(a), list(b), tol)
+            if not ok:
+                ctx.violation('compmech.analysis.%s returns different results for the same arguments' % name,
+                              dict(kind='analysis', definition=D, function=name))
+                return
+    ctx.cov['analysis_inputs'] = 'K, KG, M, fext checksummed around lb (dense, sparse), freq, static; two calls compared'
+
+
+def plot_clause(ctx, hook=None):
+    """Panel.plot (Agg) between field queries: stored fields restored, later results unchanged"""
+    try:
+        import matplotlib
+        matplotlib.use('Agg')
+        import matplotlib.pyplot as plt
+    except Exception as e:                                # noqa
+        ctx.cov['plots'] = 'matplotlib unavailable: %r' % (e,)
+        return
+    rng = ctx.rng
+    for trial in range(ctx.scale(2, 8)):
+        D = gen_panel_def(rng, plain=True)
+        D.update(model='none', alphaGiven=False, y12='none')
+        p = build_panel(D)
+        if hook:
+            hook(p)
+        A = Args(D)
+        with quiet():
+            p.calc_k0(silent=True)
+            u1 = tuple(np.array(x) for x in p.uvw(A.c, xs=A.xs, ys=A.ys))
+            stored = tuple(np.array(p.__dict__[k]) for k in ('u', 'v', 'w'))
+            cb = digest(A.c2)
+            fig = plt.figure()
+            ax = fig.add_subplot(111)
+            try:
+                p.plot(A.c2, vec=rng.choice(['w', 'u', 'exx', 'Nxx']), gridx=4, gridy=5, ax=ax)
+            except ValueError as e:                       # matplotlib refuses a constant field
+                if 'levels' not in str(e):
+                    raise
+            plt.close('all')
+            after = tuple(np.array(p.__dict__[k]) for k in ('u', 'v', 'w'))
+            u2 = tuple(np.array(x) for x in p.uvw(A.c, xs=A.xs, ys=A.ys))
+        ctx.evaluations += 3
+        if digest(A.c2) != cb:
+            ctx.violation('Panel.plot modified the caller-supplied c', dict(kind='plot', definition=D))
+            return
+        if not same_result(stored, after):
+            ctx.violation('Panel.plot did not restore the stored displacement field', dict(kind='plot', definition=D))
+            return
+        if not same_result(u1, u2):
+            ctx.violation('uvw differs before / after Panel.plot', dict(kind='plot', definition=D))
+            return
+    ctx.cov['plots'] = 'Panel.plot (Agg, vec in w/exx/Nxx) between uvw calls: stored u,v,w restored, uvw unchanged'
+
+
 def correspondence(ctx):
-    panel_lifecycle(ctx)
+    d = panel_lifecycle(ctx)
+    ctx.log('panel: %d cases, outcomes %s' % (d['cases'], d['outcomes']))
+    if ctx.violations:
+        return
+    for part in (asm_lifecycle, bay_lifecycle, thread_clauses, analysis_inputs, plot_clause, cone_lifecycle):
+        part(ctx)
+        ctx.log(part.__name__, 'done')
+        if ctx.violations:
+            return
 
 
 def search(ctx, reason):
@@ -641,3 +1376,8 @@ def replay(ctx, data):
         return 1 if ctx.violations else 0
     print('replay names no input:', data['what'])
     return 1
+
+
+if __name__ == '__main__':
+    if len(sys.argv) == 4 and sys.argv[1] == 'cone-worker':
+        cone_worker(sys.argv[2], sys.argv[3])
